@@ -283,4 +283,20 @@ def cqmFileLoadTiled (guard : Bool) (dsz : Nat) (parseHdr : Bytes → Option Cqm
   (containerLoadAt cqmPrefix parseHdr cqmVerOk (openTiledChars crc32 inflate) bytes).bind fun ha =>
     cqmDecodeChecked guard dsz ha.1 parse okLabel ha.2
 
+/-! ## round 8: the DQM loader with the section-length check INSIDE the program (`_from_file_numpy` after the round-7 repair) -/
+
+/-- `BIAS` magic, length, `blob = file_like.read(length)`, `if len(blob) != length: raise ValueError`, then `np.load` on the blob -/
+def dqmBodyLenChecked (parseVars : Bytes → Option (List J)) (npLoad : Bytes → Option D) (nvarsOf : D → Nat) (labelled : Bool) (h : H) :
+    Prog (H × D × Option (List J)) :=
+  (Prog.expect magBIAS).bind fun _ =>
+  (Prog.readLen 4).bind fun n =>
+  (Prog.readN n).bind fun blob =>
+  if blob.length ≠ n then .fail .value else dqmFinish parseVars npLoad nvarsOf labelled h blob
+
+def dqmDecodeLenChecked (parse : Bytes → Option (Bool × H)) (parseVars : Bytes → Option (List J))
+    (npLoad : Bytes → Option D) (nvarsOf : D → Nat) : Prog (H × D × Option (List J)) :=
+  (readHeader dqmPrefix parse).bind fun vh =>
+  if !tupleLt vh.1 [2, 0] then .fail .value else
+  dqmBodyLenChecked parseVars npLoad nvarsOf vh.2.1 vh.2.2
+
 end FileFmt
